@@ -442,7 +442,13 @@ func rowsOf(eps []*ua.EndpointDescription) []epRow {
 	return out
 }
 
+type renewRes struct {
+	From, To pair
+	Res      string // accept <p> <m> | reject | infra: …
+}
+
 type cfgResult struct {
+	Renew     []renewRes
 	Crash     string // the process that ran this configuration's server died: last probe and panic text
 	Cfg       config
 	Err       string
@@ -494,6 +500,12 @@ func runConfig(c config, probes []probe, id *ids) *cfgResult {
 		res.Out = append(res.Out, o)
 	}
 	fmt.Fprintf(os.Stderr, "PROBE (after the probes)\n")
+
+	// renewal: a conforming client opens a channel and sends a second OPN with other settings
+	fmt.Fprintf(os.Stderr, "PROBE (renewals)\n")
+	for _, t := range renewPairs {
+		res.Renew = append(res.Renew, runRenew(inst, id, t[0], t[1]))
+	}
 
 	// GetEndpoints through a channel with the first enabled pair (None/None when nothing is enabled)
 	if waitIdle(inst) {
@@ -611,6 +623,64 @@ func tail(s string, n int) string {
 		return s[len(s)-n:]
 	}
 	return s
+}
+
+var renewPairs = [][2]pair{
+	{{"Basic256Sha256", 3}, {"Basic256Sha256", 3}}, {{"Basic256Sha256", 3}, {"Basic256Sha256", 2}},
+	{{"Basic256Sha256", 2}, {"Aes128_Sha256_RsaOaep", 3}}, {{"Basic256", 3}, {"None", 1}},
+	{{"None", 1}, {"Basic128Rsa15", 2}}, {{"None", 1}, {"None", 1}},
+}
+
+// runRenew opens a channel with `from` through the real client code, switches the client's
+// configuration to `to` and sends a renewal request; the verdict is read from the server's channel table.
+func runRenew(inst *srvx.Inst, id *ids, from, to pair) renewRes {
+	out := renewRes{From: from, To: to}
+	if !waitIdle(inst) {
+		out.Res = "infra: server keeps a channel"
+		return out
+	}
+	ctx, cancel := context.WithTimeout(context.Background(), 30*time.Second)
+	defer cancel()
+	conn, chID, err := inst.DialRegistered(ctx)
+	if err != nil {
+		out.Res = "infra: " + err.Error()
+		return out
+	}
+	c, err := srvx.OpenOn(ctx, conn, inst.URL, uriOf(from.P), ua.MessageSecurityMode(from.M), id.cl, id.srv.CertDER, 6*time.Second)
+	if err != nil {
+		out.Res = "infra: first open refused: " + err.Error()
+		return out
+	}
+	defer c.Close()
+	cfg := c.SC.VerifConfig()
+	cfg.SecurityPolicyURI, cfg.SecurityMode = uriOf(to.P), ua.MessageSecurityMode(to.M)
+	cfg.RequestTimeout = 2 * time.Second
+	if to.P != "None" {
+		cfg.Certificate, cfg.LocalKey, cfg.RemoteCertificate, cfg.Thumbprint = id.cl.Cert, id.cl.Key, id.srv.CertDER, uapolicy.Thumbprint(id.srv.CertDER)
+	}
+	rerr := c.SC.Renew(ctx)
+	// the server's view after the renewal request
+	srvx.WaitUntil(time.Second, func() bool {
+		ch, ok := inst.Channel(chID)
+		return !ok || (srvx.Short(ch.Policy) == to.P && uint32(ch.Mode) == to.M)
+	})
+	ch, ok := inst.Channel(chID)
+	switch {
+	case !ok:
+		out.Res = "reject"
+	case rerr == nil:
+		out.Res = fmt.Sprintf("accept %s %d", srvx.Short(ch.Policy), uint32(ch.Mode))
+		// the renewed channel must work
+		if r := c.Do(&ua.GetEndpointsRequest{EndpointURL: "x"}, nil, 3*time.Second); r.Class != "ok" {
+			out.Res += " unusable:" + r.Class
+		}
+	default:
+		out.Res = "reject" // the client got no answer although the server keeps the channel registered
+		if ch.Active && srvx.Short(ch.Policy) == to.P {
+			out.Res = fmt.Sprintf("accept %s %d client-error", srvx.Short(ch.Policy), uint32(ch.Mode))
+		}
+	}
+	return out
 }
 
 func getepURLs(urls []string) []string {
@@ -807,6 +877,35 @@ func evaluate(r *h.Result, d *h.Driver, res *cfgResult) {
 			r.Confirm(cl, detail)
 		}
 	}
+	for _, t := range res.Renew {
+		cs := fmt.Sprintf("%s R=%s->%s", tag, t.From, t.To)
+		if strings.HasPrefix(t.Res, "infra") {
+			r.InfraError = cs + ": " + t.Res
+			continue
+		}
+		line := strings.TrimSuffix(fmt.Sprintf("renew %s %d %s %d %s", t.From.P, t.From.M, t.To.P, t.To.M, pairsStr(res.Enabled)), " -")
+		r.Count(line, true)
+		r.Compare(d, line, t.Res)
+		r.Hit("renew:" + strings.Fields(t.Res)[0])
+		if !strings.HasPrefix(t.Res, "accept") {
+			continue
+		}
+		// oracle: the renewed channel must (still) carry an enabled pair
+		cl := "enabled"
+		if !has(c.Intent, t.To) {
+			cl = "C30.renew-switches-security"
+		}
+		r.Compare(d, strings.TrimSuffix(fmt.Sprintf("classrenew %s %d %s", t.To.P, t.To.M, pairsStr(res.Enabled)), " -"), cl)
+		if cl != "enabled" {
+			detail := fmt.Sprintf("server with enabled pairs {%s}: a channel opened with %s was switched to %s by a renewal request", pairsStr(c.Intent), t.From, t.To)
+			if failCount[cl] < 3 {
+				failCount[cl]++
+				r.Fail(cs, cl, detail)
+			}
+			r.Confirm(cl, detail)
+			r.Hit("class:" + cl)
+		}
+	}
 	if c.Witness {
 		r.Hit("witness:" + strings.Fields(res.Witness + " ")[0])
 		r.Sample("default client (None/None, anonymous) against enabled={" + pairsStr(c.Intent) + "}: connected and read i=2258: " + res.Witness)
@@ -906,7 +1005,7 @@ func main() {
 
 	for _, b := range []string{"class:enabled", "class:rejected", "class:C30.accept-none-not-enabled", "class:C30.accept-secure-policy-mode-none",
 		"class:C30.accept-invalid-mode", "class:C30.accept-mode-not-enabled", "class:C30.accept-policy-not-enabled", "std:accept", "raw:accept", "raw:reject",
-		"endpoints", "getendpoints"} {
+		"endpoints", "getendpoints", "renew:accept", "renew:reject", "class:C30.renew-switches-security"} {
 		if r.Distribution[b] == 0 && o.Replay == "" {
 			r.Unreached = append(r.Unreached, b)
 		}
